@@ -373,6 +373,7 @@ pub fn run(ctx: &mut Ctx) {
 
     ctx.run_prop("unknown", t.pick(2000, 50_000), unknown_strategy, judge_case);
 
+    crate::fuzz::run_for(ctx);
     for l in bip39::LENGTHS {
         ctx.floor_abs(&format!("accepted-{l}"), 2048);
     }
